@@ -21,13 +21,42 @@ from harness.core import Corr, Disagreement, Failure, coq_eval, listlit, zlit
 ID = 'C20'
 SRC = 'hail/python/hailtop/utils/utils.py'
 COQ_PROPS = 'theories/Gather/Props_C20.v'
-READY = False
+READY = True
 ERRN = ['ErrA', 'ErrB']
 MODES = {'ret': 'MRet', 'raise': 'MRaise', 'cancel': 'MCancel'}
 
-META = dict(design_ref='§5.C C20, §6', technique='', level_text='', level_note='', partial=True)
-TRUSTED = []
-ASSUMPTIONS = []
+META = dict(
+    design_ref='§5.C C20, §6',
+    technique='Coq proof (invariant induction over all schedules, all numbers of permits and of partial functions) about a hand-written step model; '
+              'model tied to the real functions by a differential run on a deterministic asyncio loop (exhaustive small scope + seeded random '
+              'schedules); OnlineBoundedGather2 covered by an implementation-side oracle only',
+    level_text='Machine-checked theorems (Coq 8.16, closed under the global context) about bounded_gather / bounded_gather2 / '
+               'bounded_gather2_raise_exceptions / bounded_gather2_return_exceptions / WithoutSemaphore AFTER fixes/C20.diff, for every number of '
+               'permits >= 1, every number of partial functions and EVERY list of harness actions (body i returns v / body i raises e / the caller is '
+               'cancelled): free permits + running bodies = permits at all times (so never more than the bound run, and at most bound-1 while the '
+               'caller holds its own permit again at the instant of return), no permit idles while a task waits; a returned list holds every task\'s '
+               'scripted result in submission order (exceptions in place with return_exceptions); in the raising modes the exception raised is the one '
+               'of the first body that raised and a list is returned only if none raised; CancelledError is raised only if the caller was cancelled; '
+               'with cancel_on_error or return_exceptions (and whenever no body raised) no task is running or waiting at the instant the helper '
+               'returns or afterwards; in default mode siblings of a failed body are never cancelled (as documented); the outcome never changes '
+               'after return.',
+    level_note='PARTIAL. (1) OnlineBoundedGather2 has no Coq model: it is exercised only by the oracle on the real class (bound, exit waits for '
+               'all tasks, first exception raised); its exit leaves tasks unfinished when the with-body raises or the caller is cancelled - open '
+               'findings. (2) The theorems are about the code after fixes/C20.diff; the code in /repo before the fix violates bound, cancels-rest and '
+               'none-left-running (oracle replays). (3) Modelled, not verified: granularity "one harness action, then the loop runs until idle" plus '
+               'one snapshot at the instant of return; partial functions that end as soon as they are cancelled; only the helper\'s own tasks use '
+               'the semaphore; CPython asyncio.Semaphore FIFO / gather / Task.cancel semantics as encoded in the step function. The tie between model '
+               'and functions is a differential test, not a proof. Trusted: DetLoop (private CPython 3.12 loop attributes).',
+    partial=True,
+)
+TRUSTED = ['harness/aio/detloop.py (deterministic stepping of a real asyncio loop)',
+           'CPython 3.12 asyncio (Semaphore FIFO wake-up, gather, Task.cancel, wait) as the semantics of the implementation',
+           'harness/impl/c20_gather.py instrumentation of the partial functions (entered/exited flags, snapshot at the instant of return)']
+ASSUMPTIONS = ['a step is one harness action followed by running the event loop until no callback is ready; one extra observation is taken by the '
+               'caller at the instant the helper returns or raises',
+               'protocol of bounded_gather2: the caller holds one permit of the semaphore (the helper lends it out); bounded_gather creates the semaphore itself',
+               'partial functions finish only when the schedule says so and end immediately when cancelled; nobody else uses the semaphore',
+               'OnlineBoundedGather2 is not modelled (oracle only)']
 
 
 # ------------------------------------------------------------------------------------------------ schedules
@@ -229,5 +258,158 @@ def correspond(ctx):
                 exhaustive=False, names=['Gather.Model.step~bounded_gather2'])
 
 
+# ------------------------------------------------------------------------------------------------ oracle (implementation only)
+
+def _enumerate_online(n, maxlen):
+    out = []
+
+    def rec(prefix, finished, cancelled):
+        out.append(list(prefix))
+        if len(prefix) == maxlen:
+            return
+        for i in range(n):
+            if i not in finished:
+                rec(prefix + [['K', i]], finished | {i}, cancelled)
+                rec(prefix + [['E', i, i % 2]], finished | {i}, cancelled)
+                rec(prefix + [['T', i]], finished | {i}, cancelled)
+        if not cancelled:
+            rec(prefix + [['X']], finished, True)
+
+    rec([], frozenset(), False)
+    return out
+
+
+def _online_cases(ctx, budget):
+    cases = []
+    for p in sorted(glob.glob(os.path.join(os.path.dirname(__file__), '..', '..', 'corpus', ID, '*.json'))):
+        doc = json.load(open(p))
+        c = doc['case'] if 'case' in doc else doc
+        if c.get('entry') == 'online':
+            cases.append(c)
+    for N in (1, 2):
+        for n in (1, 2, 3):
+            for body in ('normal', 'raise'):
+                for acts in _enumerate_online(n, ctx.scale(3, 4)):
+                    cases.append({'entry': 'online', 'mode': 'raise', 'N': N, 'n': n, 'body': body, 'acts': acts})
+    rng = ctx.rng
+    for _ in range(ctx.scale(150, 3000) * budget):
+        n = rng.randint(1, 6)
+        acts = []
+        for _ in range(rng.randint(0, 10)):
+            r = rng.random()
+            acts.append(['K', rng.randrange(n)] if r < 0.5 else ['E', rng.randrange(n), rng.randint(0, 1)] if r < 0.7
+                        else ['T', rng.randrange(n)] if r < 0.9 else ['X'])
+        cases.append({'entry': 'online', 'mode': 'raise', 'N': rng.randint(1, 3), 'n': n,
+                      'body': rng.choice(['normal', 'normal', 'raise']), 'acts': acts})
+    return cases
+
+
+def _check_case(case, obs):
+    """C20 evaluated on what the REAL helpers did under one schedule.  Returns [(key, what, detail)]."""
+    bad = []
+    entry, mode, N, n = case['entry'], case['mode'], case['N'], case['n']
+    tag = f'{entry}:{mode}' if entry != 'online' else 'online'
+    acts = case['acts']
+    first_err = 'ErrB' if case.get('body') == 'raise' else None     # class name of the first exception raised
+    cancelled_caller = False
+    task_cancelled = set()
+    finished = {}              # i -> ('ok', value) | ('err', name), as scripted and effective
+    for k, o in enumerate(obs):
+        if k > 0:
+            a = acts[k - 1]
+            before = obs[k - 1]
+            if a[0] in ('K', 'E') and 0 <= a[1] < n and before['pf'][a[1]] == 'R':
+                if a[0] == 'K':
+                    finished[a[1]] = ('ok', 100 + a[1])
+                else:
+                    finished[a[1]] = ('err', ERRN[a[2]])
+                    if first_err is None:
+                        first_err = ERRN[a[2]]
+            elif a[0] == 'X' and before['caller'] == 'P':
+                cancelled_caller = True
+            elif a[0] == 'T':
+                task_cancelled.add(a[1])
+        # --- bound
+        if o['peak'] > N and not any(k0.startswith('bound-exceeded') for k0, _, _ in bad):
+            bad.append((f'bound-exceeded:{tag}', f'{o["peak"]} bodies (counting the permit the caller itself holds) ran at once with a semaphore of {N}',
+                        {'observation': k, 'pf': o['pf']}))
+        if o['value'] is not None and (o['value'] < 0 or o['value'] > N) and not any(k0.startswith('permit-leak') for k0, _, _ in bad):
+            bad.append((f'permit-leak:{tag}', f'semaphore value {o["value"]} outside 0..{N}', {'observation': k}))
+    last = obs[-1]
+    c = last['caller']
+    if last['value'] is not None and last['alive'] == 0 and c != 'P' and last['value'] != N and not any(k0.startswith('permit-leak') for k0, _, _ in bad):
+        bad.append((f'permit-leak:{tag}', f'everything finished but the semaphore value is {last["value"]}, initial {N}', {'caller': c}))
+    if c == 'P':
+        return bad
+    how = 'cancelled' if c == 'X' else 'error' if c[0] == 'E' else 'ok'
+    ar = last['at_return']
+    # --- error contract
+    if c == 'X' and not cancelled_caller:
+        bad.append((f'spurious-cancel:{tag}', 'the helper raised CancelledError although its caller was not cancelled', {}))
+    if isinstance(c, list) and c[0] == 'E':
+        if mode == 'ret' and entry != 'online':
+            bad.append((f'raised-in-return-mode:{tag}', f'return_exceptions=True but the helper raised {c[1]}', {}))
+        elif c[1] != first_err:
+            bad.append((f'not-first-exception:{tag}', f'the helper raised {c[1]}, the first exception raised was {first_err}', {}))
+    if isinstance(c, list) and c[0] == 'V':
+        rs = c[1]
+        if entry != 'online':
+            want = []
+            for i in range(n):
+                f = finished.get(i)
+                if mode == 'ret':
+                    want.append(None if f is None else (['V', f[1]] if f[0] == 'ok' else ['E', f[1]]))
+                else:
+                    want.append(None if f is None or f[0] != 'ok' else f[1])
+            if rs != want:
+                bad.append((f'wrong-results:{tag}', 'the returned list is not the list of the bodies\' results in submission order', {'got': rs, 'want': want}))
+            if mode != 'ret' and first_err is not None:
+                bad.append((f'error-swallowed:{tag}', f'a body raised {first_err} but the helper returned normally', {}))
+        elif first_err is not None:
+            bad.append((f'error-swallowed:{tag}', f'{first_err} was raised but the context manager exited normally', {}))
+    # --- cancels the rest / none left running (default mode documents that siblings keep running after an error)
+    exempt = entry != 'online' and mode == 'raise' and first_err is not None
+    if ar is not None and not exempt and (ar['alive'] > 0 or ar['running']):
+        bad.append((f'left-running:{tag}:{how}',
+                    f'{ar["alive"]} task(s) unfinished ({len(ar["running"])} bodies running) at the instant the helper '
+                    f'{"returned" if how == "ok" else "raised"}', {'at_return': ar}))
+    if not exempt and last['alive'] > 0:
+        bad.append((f'left-running-for-good:{tag}:{how}', f'{last["alive"]} task(s) still unfinished after the event loop went idle', {'pf': last['pf']}))
+    # --- nobody is cancelled unless asked for
+    if entry != 'online' and mode == 'raise' and not cancelled_caller and 'cancelled' in last['pf']:
+        bad.append((f'cancelled-unasked:{tag}', 'default mode cancelled a sibling', {'pf': last['pf']}))
+    return bad
+
+
 def oracle(ctx, budget):
-    return [], {}
+    cases, n_corpus, n_exh = _cases(ctx, budget)
+    cases += _online_cases(ctx, budget)
+    impl = _run_impl(ctx, cases)
+    seen = {}
+    for c, o in zip(cases, impl):
+        for key, what, detail in _check_case(c, o):
+            old = seen.get(key)
+            if old is None or (len(c['acts']), c['n']) < (len(old.case['acts']), old.case['n']):
+                seen[key] = Failure(key, what, c, expected='C20 statement', observed=detail)
+    return list(seen.values()), {
+        'evaluations': len(cases),
+        'distinct_nontrivial': len({json.dumps(c, sort_keys=True) for c in cases if c['n'] > c['N'] and c['acts']}),
+        'rule': 'oracle: bound (peak of running bodies + caller\'s own permit, semaphore value range and final value), result order, error '
+                'contract per mode, nothing unfinished at the instant of return, evaluated on the observations of the real helpers incl. '
+                'OnlineBoundedGather2 (no model); non-trivial = more partial functions than permits and at least one action',
+        'histograms': {'oracle_entries': {e: sum(1 for c in cases if c['entry'] == e) for e in ('gather2', 'gather', 'online')}}}
+
+
+def replay(ctx, doc):
+    case = doc['case']
+    if 'case' in case and 'acts' not in case:
+        case = case['case']
+    impl = _run_impl(ctx, [case])[0]
+    out = {'case': case, 'impl': impl, 'oracle': [list(x) for x in _check_case(case, impl)]}
+    if case['entry'] != 'online':
+        try:
+            out['model_fixed_code'] = _run_model(ctx, [case], 'rp')[0]
+            out['first_difference_from_model'] = _first_diff(case, out['model_fixed_code'], impl)
+        except Exception as e:  # the model may not build while a proof is broken
+            out['model_error'] = str(e)[-500:]
+    return out
